@@ -60,6 +60,8 @@ LIB = {
 ELIB = {
     'egain': {'eqs': ["m = kk*tanh(s_e)"], 'wired': False},
     'ecoup': {'eqs': ["m = kk*(s_e - s_t)"], 'wired': True},
+    # affine coupling: f(0) != 0 (what a delayed edge delivers before its delay has elapsed must still be 0)
+    'eaff':  {'eqs': ["m = kk*s_e + kk"], 'wired': False},
 }
 
 
@@ -79,6 +81,8 @@ def edge_value(attrs, ets, y, src):
     kk = attrs.get('kk', et.get('kk', 0.5))
     if et['lib'] == 'egain':
         return w * kk * math.tanh(y[src])
+    if et['lib'] == 'eaff':
+        return w * (kk * y[src] + kk)
     return w * kk * (y[src] - y[attrs['wire']])
 
 
@@ -590,7 +594,7 @@ def add_edge_templates(rng, spec, p=0.5, uniq='', delayed=False):
     """turn a seeded share of the undelayed edges into template edges (gain / explicitly wired coupling, with optional
     per-edge override of the edge operator's constant)"""
     spec['ets'] = {f'et{j}{uniq}': {'name': f'et{j}{uniq}', 'opname': f'eop{j}{uniq}', 'lib': lib, 'kk': rng.randint(2, 24) / 16}
-                   for j, lib in enumerate(['egain', 'ecoup'])}
+                   for j, lib in enumerate(['egain', 'ecoup', 'eaff'])}
 
     def levels(s_):
         yield s_
